@@ -272,6 +272,11 @@ func (s *DenseStore) Reweight(w float64) error {
 	for idx := s.minIndex; idx <= s.maxIndex; idx++ {
 		s.bins[idx-s.offset] *= w
 	}
+	if s.count == 0 {
+		// All the counts have underflowed to zero: the store is now empty and
+		// must not keep the index range it used to cover.
+		s.Clear()
+	}
 	return nil
 }
 
